@@ -44,7 +44,7 @@ var modes = []modeSpec{
 	{"cache-mutation", 1300, 22000, modeCacheMutation},             // x 60-120 mutants
 	{"subscribe-structured", 1300, 20000, modeSubscribeStructured}, // x 8 sessions
 	{"subscribe-mutation", 1000, 15000, modeSubscribeMutation},     // x 12 sessions
-	{"once-rejected-storm", 120, 1200, modeOnceRejectedStorm},      // x ~1000 concurrent sessions
+	{"once-rejected-storm", 320, 2400, modeOnceRejectedStorm},      // x ~1000 concurrent sessions
 	{"client-structured", 700, 9000, modeClientStructured(false)},  // x 8 streams
 	{"client-mutation", 500, 8000, modeClientMutation(false)},      // x 8 streams
 	{"cli-structured", 1100, 15000, modeClientStructured(true)},    // x 8 streams
